@@ -22,14 +22,14 @@ type counterRNG struct{ n uint64 }
 
 func (r *counterRNG) next() uint64 { return atomic.AddUint64(&r.n, 1) }
 
-func (r *counterRNG) Float64() float64                  { return 0 }
-func (r *counterRNG) Int64N(n int64) int64              { return 0 }
-func (r *counterRNG) IntN(n int) int                    { return 0 }
-func (r *counterRNG) Read(p []byte) (int, error)        { return len(p), nil }
+func (r *counterRNG) Float64() float64                   { return 0 }
+func (r *counterRNG) Int64N(n int64) int64               { return 0 }
+func (r *counterRNG) IntN(n int) int                     { return 0 }
+func (r *counterRNG) Read(p []byte) (int, error)         { return len(p), nil }
 func (r *counterRNG) Shuffle(n int, swap func(i, j int)) {}
-func (r *counterRNG) Uint32() uint32                    { return uint32(r.next()) }
-func (r *counterRNG) Uint64() uint64                    { return r.next() }
-func (r *counterRNG) IsThreadSafe()                     {}
+func (r *counterRNG) Uint32() uint32                     { return uint32(r.next()) }
+func (r *counterRNG) Uint64() uint64                     { return r.next() }
+func (r *counterRNG) IsThreadSafe()                      {}
 
 // ---------------------------------------------------------------------------
 // Clock that never moves.
@@ -141,7 +141,7 @@ type leafRec struct {
 type world struct {
 	// mu is a real mutex (never held across a scheduling point): it only
 	// keeps the free-running -race pass quiet about the fakes themselves.
-	mu  sync.Mutex
+	mu          sync.Mutex
 	rng         *counterRNG
 	handles     *virtual.FUSEStatefulHandleAllocator
 	logger      *countingErrorLogger
